@@ -6,6 +6,8 @@ Cells of the buffer are read with `getD · 0`, which makes the zero-filled tail 
 import Earverif.Proofs.C02Compose
 import Earverif.Proofs.C02Vbs
 namespace Earverif.Stream
+set_option linter.unusedSectionVars false
+set_option linter.unusedSimpArgs false
 
 variable {V : Type} [RMod V]
 
@@ -98,5 +100,375 @@ theorem add_cells (a : Aligner V) (start : Int) (samples : List V) (hs : a.buf_s
     split
     · rw [addSlice_length _ _ _ hlen.1]; exact hlen.2
     · exact hlen.2
+
+/-- `add` of a block that starts before time 0 while `buf_start = 0`: the first `k = -start` samples are
+stripped, the rest lands at the start of the buffer. -/
+theorem add_cells_strip (a : Aligner V) (start : Int) (samples : List V) (h0 : a.buf_start = 0) (hs : start < 0) :
+    ∃ a', a.add start samples = .ok a' ∧ a'.buf_start = 0 ∧
+      a'.first_end = feUpd a.first_end (start + samples.length) ∧
+      (∀ i, a'.buf.getD i 0 =
+        if i + (-start).toNat < samples.length then a.buf.getD i 0 + samples.getD (i + (-start).toNat) 0
+        else a.buf.getD i 0) ∧
+      samples.length - (-start).toNat ≤ a'.buf.length ∧ a.buf.length ≤ a'.buf.length := by
+  generalize hk : (-start).toNat = k
+  have hk' : start = -(k : Int) := by omega
+  subst hk'
+  have hstrip : a.strip (-(k : Int)) samples =
+      .ok (-(k : Int) + ((min k samples.length : Nat) : Int), samples.drop (min k samples.length)) := by
+    unfold Aligner.strip
+    rw [if_pos (by omega), if_neg (by simp [h0])]
+    simp only [h0]
+    have : min (0 - -(k : Int)) (samples.length : Int) = ((min k samples.length : Nat) : Int) := by omega
+    rw [this, Int.toNat_natCast]
+  unfold Aligner.add
+  by_cases hkn : k < samples.length
+  · -- some samples survive; they start at buffer index 0
+    have hmin : min k samples.length = k := by omega
+    rw [hmin] at hstrip
+    have e1 : -(k : Int) + (k : Int) = 0 := by omega
+    rw [e1] at hstrip
+    rw [hstrip]
+    simp only [h0, List.length_drop]
+    rw [if_neg (by omega)]
+    generalize hbuf : (if (0 : Int) + ↑(samples.length - k) - 0 > ↑a.buf.length then
+        a.buf ++ List.replicate (((0 : Int) + ↑(samples.length - k) - 0).toNat - a.buf.length) 0 else a.buf) = buf
+    have hlen : samples.length - k ≤ buf.length ∧ a.buf.length ≤ buf.length := by
+      rw [← hbuf]; split
+      · simp only [List.length_append, List.length_replicate]; omega
+      · omega
+    have hget : ∀ i, buf.getD i 0 = a.buf.getD i 0 := by
+      intro i; rw [← hbuf]; split
+      · exact getD_append_zeros _ _ _
+      · rfl
+    have hdl : (samples.drop k).length = samples.length - k := by simp
+    refine ⟨_, rfl, rfl, ?_, ?_, ?_, ?_⟩
+    · have e : (0 : Int) + ↑(samples.length - k) = -(k : Int) + samples.length := by omega
+      simp only [feUpd, e]
+      cases a.first_end <;> rfl
+    · intro i
+      simp only
+      rw [if_pos (by omega)]
+      have : ((0 : Int) - 0).toNat = 0 := rfl
+      rw [this, getD_addSlice _ _ _ (by rw [hdl]; omega), hget, hdl]
+      by_cases hi : i + k < samples.length
+      · rw [if_pos hi, if_pos ⟨Nat.zero_le _, by omega⟩]
+        congr 1
+        simp only [List.getD_eq_getElem?_getD, List.getElem?_drop, Nat.sub_zero]
+        congr 2; omega
+      · rw [if_neg hi, if_neg (by omega)]
+    · simp only
+      rw [if_pos (by omega), addSlice_length _ _ _ (by rw [hdl]; simp; omega)]; exact hlen.1
+    · simp only
+      rw [if_pos (by omega), addSlice_length _ _ _ (by rw [hdl]; simp; omega)]; exact hlen.2
+  · -- everything is stripped
+    have hmin : min k samples.length = samples.length := by omega
+    rw [hmin] at hstrip
+    rw [hstrip]
+    simp only [h0, List.length_drop]
+    have e0 : samples.length - samples.length = 0 := by omega
+    rw [e0]
+    rw [if_neg (by omega)]
+    have hnr : ¬ (-(k : Int) + ↑samples.length + ((0 : Nat) : Int) - 0 > ↑a.buf.length) := by omega
+    rw [if_neg hnr]
+    refine ⟨_, rfl, rfl, ?_, ?_, ?_, ?_⟩
+    · have e : -(k : Int) + ↑samples.length + ((0 : Nat) : Int) = -(k : Int) + samples.length := by omega
+      simp only [feUpd, e]
+      cases a.first_end <;> rfl
+    · intro i
+      simp only [ne_eq, not_true_eq_false, if_false]
+      rw [if_neg (by omega)]
+    · simp only [ne_eq, not_true_eq_false, if_false]; omega
+    · simp only [ne_eq, not_true_eq_false, if_false]; omega
+
+/-- `get` after a round whose earliest end is `fe`. -/
+theorem get_cells (a : Aligner V) (fe : Int) (hfe : a.first_end = some fe)
+    (hlen : (max (fe - a.buf_start) 0).toNat ≤ a.buf.length) :
+    ∃ a', a.get = .ok ((List.range (max (fe - a.buf_start) 0).toNat).map (fun j => a.buf.getD j 0), a') ∧
+      a'.buf_start = a.buf_start + ((max (fe - a.buf_start) 0).toNat : Int) ∧ a'.first_end = none ∧
+      ∀ i, a'.buf.getD i 0 = a.buf.getD ((max (fe - a.buf_start) 0).toNat + i) 0 := by
+  generalize hm : (max (fe - a.buf_start) 0).toNat = m at hlen
+  unfold Aligner.get
+  rw [hfe]
+  simp only [hm]
+  refine ⟨⟨a.buf.drop m ++ List.replicate (a.buf.length - (a.buf.length - m)) 0, a.buf_start + m, none⟩,
+    ?_, rfl, rfl, ?_⟩
+  · congr 2
+    apply List.ext_getElem?
+    intro i
+    simp only [List.getElem?_take, List.getElem?_map, List.getElem?_range]
+    by_cases hi : i < m
+    · rw [if_pos hi, List.getElem?_range hi]
+      simp only [Option.map_some, List.getD_eq_getElem?_getD]
+      rw [List.getElem?_eq_getElem (by omega)]; rfl
+    · rw [if_neg hi, List.getElem?_eq_none (by simp; omega)]; rfl
+  · intro i
+    simp only
+    rw [getD_append_zeros]
+    simp only [List.getD_eq_getElem?_getD, List.getElem?_drop]
+
+/-! ### One round of `Renderer.render` -/
+
+section Round
+variable [LawfulRMod V]
+open Earverif.Renderer
+
+theorem getD_append_len (l r : List V) (p : Nat) :
+    (l ++ r).getD p 0 = if p < l.length then l.getD p 0 else r.getD (p - l.length) 0 := by
+  simp only [List.getD_eq_getElem?_getD, List.getElem?_append]
+  split <;> rfl
+
+theorem getD_beyond (l : List V) (p : Nat) (h : l.length ≤ p) : l.getD p 0 = 0 := by
+  simp only [List.getD_eq_getElem?_getD, List.getElem?_eq_none h, Option.getD_none]
+
+/-- The shifted sum at output position `p`. -/
+def shiftedSum (D : Nat) (A B C : List V) (p : Nat) : V := (A.getD (p + D) 0 + B.getD p 0) + C.getD p 0
+
+/-- Aligner state between rounds, after `S` samples per stream: positions `[S − D, S)` hold the sums of the two
+undelayed streams, still waiting for the delayed one; everything after is zero. -/
+def AlInv (D S : Nat) (Bs Cs : List V) (a : Aligner V) : Prop :=
+  a.first_end = none ∧ a.buf_start = ((S - D : Nat) : Int) ∧
+    ∀ i, a.buf.getD i 0 = Bs.getD (S - D + i) 0 + Cs.getD (S - D + i) 0
+
+/-- The first `add` of a round (offset `−D`), both cases (stripped before time 0 or not). -/
+theorem add_first (D S : Nat) (o1 : List V) (a : Aligner V) (hbs : a.buf_start = ((S - D : Nat) : Int))
+    (hfe : a.first_end = none) :
+    ∃ a1, a.add ((S : Int) - D) o1 = .ok a1 ∧ a1.buf_start = a.buf_start ∧
+      a1.first_end = some ((S : Int) - D + o1.length) ∧
+      (∀ i, a1.buf.getD i 0 =
+        if S - D + i + D - S < o1.length then a.buf.getD i 0 + o1.getD (S - D + i + D - S) 0 else a.buf.getD i 0) ∧
+      a.buf.length ≤ a1.buf.length := by
+  by_cases hSD : D ≤ S
+  · obtain ⟨a1, e1, e2, e3, e4, _, e6⟩ := add_cells a ((S : Int) - D) o1 (by omega)
+    refine ⟨a1, e1, e2, by rw [e3, hfe]; rfl, ?_, e6⟩
+    intro i
+    rw [e4 i]
+    have : ((S : Int) - D - a.buf_start).toNat = 0 := by omega
+    rw [this]
+    have e : S - D + i + D - S = i := by omega
+    rw [e]
+    by_cases hi : i < o1.length
+    · rw [if_pos ⟨Nat.zero_le _, by omega⟩, if_pos hi]; rfl
+    · rw [if_neg (by omega), if_neg hi]
+  · obtain ⟨a1, e1, e2, e3, e4, _, e6⟩ := add_cells_strip a ((S : Int) - D) o1 (by omega) (by omega)
+    refine ⟨a1, e1, by rw [e2]; omega, by rw [e3, hfe]; rfl, ?_, e6⟩
+    intro i
+    rw [e4 i]
+    have : (-((S : Int) - D)).toNat = D - S := by omega
+    rw [this]
+    have e : S - D + i + D - S = i + (D - S) := by omega
+    rw [e]
+
+/-- A later `add` of a round (offset 0). -/
+theorem add_later (D S : Nat) (o : List V) (a : Aligner V) (hbs : a.buf_start = ((S - D : Nat) : Int)) (fe : Int)
+    (hfe : a.first_end = some fe) (hle : fe ≤ (S : Int) + o.length) :
+    ∃ a2, a.add (S : Int) o = .ok a2 ∧ a2.buf_start = a.buf_start ∧ a2.first_end = some fe ∧
+      (∀ i, a2.buf.getD i 0 =
+        if S ≤ S - D + i ∧ S - D + i < S + o.length then a.buf.getD i 0 + o.getD (S - D + i - S) 0
+        else a.buf.getD i 0) ∧
+      (S - (S - D)) + o.length ≤ a2.buf.length ∧ a.buf.length ≤ a2.buf.length := by
+  obtain ⟨a2, e1, e2, e3, e4, e5, e6⟩ := add_cells a (S : Int) o (by omega)
+  have hsb : ((S : Int) - a.buf_start).toNat = S - (S - D) := by omega
+  rw [hsb] at e4 e5
+  refine ⟨a2, e1, e2, ?_, ?_, e5, e6⟩
+  · rw [e3, hfe]; simp only [feUpd]; rw [if_neg (by omega)]
+  · intro i
+    rw [e4 i]
+    by_cases hi : S ≤ S - D + i ∧ S - D + i < S + o.length
+    · rw [if_pos hi, if_pos (by omega)]
+      congr 2; omega
+    · rw [if_neg hi, if_neg (by omega)]
+
+theorem cellA (a b c : V) : (b + c) + a = (a + b) + c := by
+  rw [LawfulRMod.add_comm (b + c) a, LawfulRMod.add_assoc]
+
+theorem cellB (a b c : V) : ((((0 : V) + 0) + a) + b) + c = (a + b) + c := by
+  rw [LawfulRMod.zero_add, LawfulRMod.zero_add]
+
+theorem cellC (b c : V) : (((0 : V) + 0) + b) + c = b + c := by
+  rw [LawfulRMod.zero_add, LawfulRMod.zero_add]
+
+/-- One round: no assertion fails, the round returns the shifted sum on the newly completed positions, and the
+invariant moves on. -/
+theorem alignRound_spec (D S n : Nat) (As Bs Cs o1 o2 o3 : List V) (a : Aligner V)
+    (hA : As.length = S) (hB : Bs.length = S) (hC : Cs.length = S)
+    (h1 : o1.length = n) (h2 : o2.length = n) (h3 : o3.length = n) (hinv : AlInv D S Bs Cs a) :
+    ∃ a', alignRound D a (S : Int) o1 o2 o3 =
+        .ok ((List.range ((S + n - D) - (S - D))).map
+              (fun j => shiftedSum D (As ++ o1) (Bs ++ o2) (Cs ++ o3) (S - D + j)), a') ∧
+      AlInv D (S + n) (Bs ++ o2) (Cs ++ o3) a' := by
+  obtain ⟨hfe, hbs, hcell⟩ := hinv
+  obtain ⟨a1, e1, b1, f1, c1, l1⟩ := add_first D S o1 a hbs hfe
+  obtain ⟨a2, e2, b2, f2, c2, l2, l2'⟩ := add_later D S o2 a1 (b1.trans hbs) _ f1 (by omega)
+  obtain ⟨a3, e3, b3, f3, c3, l3, l3'⟩ := add_later D S o3 a2 (b2.trans (b1.trans hbs)) _ f2 (by omega)
+  have hbs3 : a3.buf_start = ((S - D : Nat) : Int) := b3.trans (b2.trans (b1.trans hbs))
+  have hm : (max ((S : Int) - D + o1.length - a3.buf_start) 0).toNat = (S + n - D) - (S - D) := by
+    rw [hbs3, h1]; omega
+  obtain ⟨a4, e4, b4, f4, c4⟩ := get_cells a3 _ f3 (by rw [hm]; omega)
+  rw [hm] at e4 b4 c4
+  -- the cells before `get`
+  have hcells : ∀ i, a3.buf.getD i 0 =
+      (if S ≤ S - D + i ∧ S - D + i < S + n then
+        (if S ≤ S - D + i ∧ S - D + i < S + n then
+          (if S - D + i + D - S < n then
+            (Bs.getD (S - D + i) 0 + Cs.getD (S - D + i) 0) + o1.getD (S - D + i + D - S) 0
+           else Bs.getD (S - D + i) 0 + Cs.getD (S - D + i) 0) + o2.getD (S - D + i - S) 0
+         else (if S - D + i + D - S < n then
+            (Bs.getD (S - D + i) 0 + Cs.getD (S - D + i) 0) + o1.getD (S - D + i + D - S) 0
+           else Bs.getD (S - D + i) 0 + Cs.getD (S - D + i) 0)) + o3.getD (S - D + i - S) 0
+       else
+        (if S ≤ S - D + i ∧ S - D + i < S + n then
+          (if S - D + i + D - S < n then
+            (Bs.getD (S - D + i) 0 + Cs.getD (S - D + i) 0) + o1.getD (S - D + i + D - S) 0
+           else Bs.getD (S - D + i) 0 + Cs.getD (S - D + i) 0) + o2.getD (S - D + i - S) 0
+         else (if S - D + i + D - S < n then
+            (Bs.getD (S - D + i) 0 + Cs.getD (S - D + i) 0) + o1.getD (S - D + i + D - S) 0
+           else Bs.getD (S - D + i) 0 + Cs.getD (S - D + i) 0))) := by
+    intro i
+    rw [c3 i, c2 i, c1 i, hcell i, h1, h2, h3]
+  refine ⟨a4, ?_, f4, ?_, ?_⟩
+  · unfold alignRound
+    rw [e1]; simp only; rw [e2]; simp only; rw [e3]; simp only
+    rw [e4]
+    congr 2
+    apply List.map_congr_left
+    intro j hj
+    have hj' : j < (S + n - D) - (S - D) := List.mem_range.mp hj
+    rw [hcells j]
+    simp only [shiftedSum, getD_append_len, hA, hB, hC]
+    have hA1 : ¬ (S - D + j + D < S) := by omega
+    have hlt : S - D + j + D - S < n := by omega
+    rw [if_neg hA1, if_pos hlt]
+    by_cases hp : S - D + j < S
+    · rw [if_neg (by omega), if_neg (by omega), if_pos hp, if_pos hp]
+      exact cellA _ _ _
+    · rw [if_pos (by omega), if_pos (by omega), if_neg hp, if_neg hp]
+      rw [getD_beyond Bs _ (by omega), getD_beyond Cs _ (by omega)]
+      exact cellB _ _ _
+  · rw [b4, hbs3]; omega
+  · intro i
+    rw [c4 i, hcells]
+    have e : S - D + ((S + n - D) - (S - D) + i) = S + n - D + i := by omega
+    rw [e]
+    simp only [getD_append_len, hB, hC]
+    have hA0 : ¬ (S + n - D + i + D - S < n) := by omega
+    rw [if_neg hA0]
+    by_cases hp : S + n - D + i < S
+    · rw [if_neg (by omega), if_neg (by omega), if_pos hp, if_pos hp]
+    · rw [if_neg hp, if_neg hp]
+      by_cases hq : S + n - D + i < S + n
+      · rw [if_pos (by omega), if_pos (by omega)]
+        rw [getD_beyond Bs _ (by omega), getD_beyond Cs _ (by omega)]
+        exact cellC _ _
+      · rw [if_neg (by omega), if_neg (by omega)]
+        rw [getD_beyond Bs _ (by omega), getD_beyond Cs _ (by omega),
+          getD_beyond o2 _ (by omega), getD_beyond o3 _ (by omega)]
+
+theorem getD_append_lt (l r : List V) (p : Nat) (h : p < l.length) : (l ++ r).getD p 0 = l.getD p 0 := by
+  rw [getD_append_len, if_pos h]
+
+/-- Rounds whose three blocks all have the length by which `start_sample` advances. -/
+def RoundsOK (rs : List (Nat × List V × List V × List V)) : Prop :=
+  ∀ r ∈ rs, r.2.1.length = r.1 ∧ r.2.2.1.length = r.1 ∧ r.2.2.2.length = r.1
+
+/-- Any sequence of rounds from a state satisfying the invariant. -/
+theorem alignRun_spec (D : Nat) : ∀ (rs : List (Nat × List V × List V × List V)) (S : Nat) (As Bs Cs : List V)
+    (a : Aligner V), As.length = S → Bs.length = S → Cs.length = S → AlInv D S Bs Cs a → RoundsOK rs →
+    ∃ outs a', alignRun D a (S : Int) rs = .ok (outs, a') ∧
+      outs.flatten =
+        (List.range ((S + (rs.map (·.2.1)).flatten.length - D) - (S - D))).map
+          (fun j => shiftedSum D (As ++ (rs.map (·.2.1)).flatten) (Bs ++ (rs.map (·.2.2.1)).flatten)
+            (Cs ++ (rs.map (·.2.2.2)).flatten) (S - D + j)) := by
+  intro rs
+  induction rs with
+  | nil =>
+    intro S As Bs Cs a _ _ _ _ _
+    refine ⟨[], a, rfl, ?_⟩
+    simp
+  | cons r rs ih =>
+    intro S As Bs Cs a hA hB hC hinv hok
+    obtain ⟨n, o1, o2, o3⟩ := r
+    obtain ⟨h1, h2, h3⟩ := hok (n, o1, o2, o3) List.mem_cons_self
+    simp only at h1 h2 h3
+    obtain ⟨a1, e1, hinv1⟩ := alignRound_spec D S n As Bs Cs o1 o2 o3 a hA hB hC h1 h2 h3 hinv
+    obtain ⟨outs, a2, e2, hflat⟩ := ih (S + n) (As ++ o1) (Bs ++ o2) (Cs ++ o3) a1
+      (by simp [hA, h1]) (by simp [hB, h2]) (by simp [hC, h3]) hinv1
+      (fun r hr => hok r (List.mem_cons_of_mem _ hr))
+    refine ⟨(List.range ((S + n - D) - (S - D))).map
+              (fun j => shiftedSum D (As ++ o1) (Bs ++ o2) (Cs ++ o3) (S - D + j)) :: outs, a2, ?_, ?_⟩
+    · simp only [alignRun, e1]
+      have : ((S : Int) + (n : Int)) = ((S + n : Nat) : Int) := by push_cast; rfl
+      rw [this, e2]
+    · simp only [List.flatten_cons, List.map_cons, hflat, List.length_append, h1, List.append_assoc]
+      generalize (rs.map (·.2.1)).flatten = A' at *
+      generalize (rs.map (·.2.2.1)).flatten = B' at *
+      generalize (rs.map (·.2.2.2)).flatten = C' at *
+      have hsplit : (S + (n + A'.length) - D) - (S - D) =
+          ((S + n - D) - (S - D)) + ((S + n + A'.length - D) - (S + n - D)) := by omega
+      rw [hsplit, List.range_add, List.map_append, List.map_map]
+      congr 1
+      · apply List.map_congr_left
+        intro j hj
+        have hj' : j < (S + n - D) - (S - D) := List.mem_range.mp hj
+        simp only [shiftedSum]
+        rw [← List.append_assoc As, ← List.append_assoc Bs, ← List.append_assoc Cs]
+        rw [getD_append_lt (As ++ o1) A' _ (by simp [hA, h1]; omega),
+          getD_append_lt (Bs ++ o2) B' _ (by simp [hB, h2]; omega),
+          getD_append_lt (Cs ++ o3) C' _ (by simp [hC, h3]; omega)]
+      · apply List.map_congr_left
+        intro j _
+        simp only [Function.comp]
+        congr 1
+        omega
+
+/-- **`aligner_eq`** — three streams with constant offsets (−D, 0, 0) and equal block lengths per round, any
+sequence of rounds (empty blocks included): no assertion of `BlockAligner` fails and the concatenated `get`s are the
+prefix of the shifted sum `A[s+D] + B[s] + C[s]`, `0 ≤ s < T − D`. -/
+theorem aligner_run_eq (D : Nat) (rs : List (Nat × List V × List V × List V)) (hok : RoundsOK rs) :
+    ∃ outs al, alignRun D (Aligner.init : Aligner V) 0 rs = .ok (outs, al) ∧
+      outs.flatten =
+        List.zipWith (· + ·)
+          (List.zipWith (· + ·) ((rs.map (·.2.1)).flatten.drop D) (rs.map (·.2.2.1)).flatten)
+          (rs.map (·.2.2.2)).flatten := by
+  have hinit : AlInv D 0 ([] : List V) [] (Aligner.init : Aligner V) := by
+    refine ⟨rfl, by simp [Aligner.init], ?_⟩
+    intro i
+    simp only [Aligner.init, List.getD_eq_getElem?_getD, List.getElem?_nil, Option.getD_none]
+    exact (LawfulRMod.zero_add (0 : V)).symm
+  obtain ⟨outs, a', e, hflat⟩ := alignRun_spec D rs 0 [] [] [] _ rfl rfl rfl hinit hok
+  refine ⟨outs, a', by simpa using e, ?_⟩
+  rw [hflat]
+  simp only [List.nil_append, Nat.zero_add, Nat.zero_sub, Nat.sub_zero]
+  -- equal lengths of the three streams
+  have hlens : (rs.map (·.2.2.1)).flatten.length = (rs.map (·.2.1)).flatten.length ∧
+      (rs.map (·.2.2.2)).flatten.length = (rs.map (·.2.1)).flatten.length := by
+    clear hflat e hinit
+    induction rs with
+    | nil => simp
+    | cons r rs ih =>
+      obtain ⟨h1, h2, h3⟩ := hok r List.mem_cons_self
+      obtain ⟨i1, i2⟩ := ih (fun r hr => hok r (List.mem_cons_of_mem _ hr))
+      simp only [List.map_cons, List.flatten_cons, List.length_append]
+      omega
+  generalize (rs.map (·.2.1)).flatten = A at *
+  generalize (rs.map (·.2.2.1)).flatten = B at *
+  generalize (rs.map (·.2.2.2)).flatten = C at *
+  obtain ⟨hB, hC⟩ := hlens
+  apply List.ext_getElem?
+  intro i
+  simp only [List.getElem?_map, List.getElem?_zipWith, List.getElem?_drop, shiftedSum,
+    List.getD_eq_getElem?_getD]
+  by_cases hi : i < A.length - D
+  · rw [List.getElem?_range hi]
+    have h1 : D + i < A.length := by omega
+    have e1 : i + D = D + i := by omega
+    simp only [Option.map_some, e1]
+    rw [List.getElem?_eq_getElem h1, List.getElem?_eq_getElem (by omega : i < B.length),
+      List.getElem?_eq_getElem (by omega : i < C.length)]
+    rfl
+  · rw [List.getElem?_eq_none (by simp; omega)]
+    rw [List.getElem?_eq_none (by omega : A.length ≤ D + i)]
+    rfl
+
+end Round
 
 end Earverif.Stream
